@@ -639,6 +639,10 @@ func (e *Exec) storeWithHooks(st *State, p *Place, v Value, pos token.Pos) {
 			}
 		}
 	}
+	// a reference stored anywhere but into a local variable's own cell is handed out
+	if !(p.Kind == PObj && st.fresh[p.Base.S] && !st.published[p.Base.S] && strings.HasPrefix(func() string { k, _ := placePrefix(p); return k }(), "cell:")) {
+		e.publish(st, v)
+	}
 	e.storePlace(st, p, v)
 	if len(e.eng.specs.Hooks) == 0 || p.Kind == PElem {
 		return
@@ -1065,6 +1069,7 @@ func (e *Exec) specEnvFor(st *State, fr *Frame) *SpecEnv {
 			addr := e.val(fr, v)
 			if addr.P != nil {
 				env.vars[name[1:]] = e.loadPlace(st, addr.P, nil)
+				env.vars[name[1:]+"$ptr"] = addr
 			}
 			continue
 		}
@@ -1083,6 +1088,14 @@ func (e *Exec) specEnvFor(st *State, fr *Frame) *SpecEnv {
 		}
 	}
 	for _, p := range fr.fn.Params {
+		if _, cell := fr.names["&"+p.Name()]; cell {
+			continue // address-taken parameter: its cell holds the current value
+		}
+		if sv, ok := fr.names[p.Name()]; ok {
+			if _, isParam := sv.(*ssa.Parameter); !isParam {
+				continue // reassigned parameter
+			}
+		}
 		if val, ok := fr.env[p]; ok {
 			env.vars[p.Name()] = val
 		}
